@@ -88,3 +88,110 @@ pub mod diff {
         Ok((out, res.has_diff))
     }
 }
+
+/// Diagnostics: the private parts of `FormatReport`, `Session` flags, and `format_lines`.
+pub mod report {
+    use crate::config::{Config, FileName};
+    use crate::{ErrorKind, FormatReport, Session};
+
+    #[derive(Debug, Clone, PartialEq, Eq)]
+    pub struct Entry {
+        pub file: String,
+        pub line: usize,
+        /// short name of the `ErrorKind` variant
+        pub kind: &'static str,
+        /// (found, maximum) for `LineOverflow`
+        pub overflow: Option<(usize, usize)>,
+        pub is_comment: bool,
+        pub is_string: bool,
+    }
+
+    fn kind_name(k: &ErrorKind) -> &'static str {
+        match k {
+            ErrorKind::LineOverflow(..) => "LineOverflow",
+            ErrorKind::TrailingWhitespace => "TrailingWhitespace",
+            ErrorKind::DeprecatedAttr => "DeprecatedAttr",
+            ErrorKind::BadAttr => "BadAttr",
+            ErrorKind::IoError(_) => "IoError",
+            ErrorKind::ModuleResolutionError(_) => "ModuleResolutionError",
+            ErrorKind::ParseError => "ParseError",
+            ErrorKind::VersionMismatch => "VersionMismatch",
+            ErrorKind::LostComment => "LostComment",
+            ErrorKind::InvalidGlobPattern(_) => "InvalidGlobPattern",
+        }
+    }
+
+    /// Every diagnostic of the report, sorted by (file, line, kind).
+    pub fn entries(report: &FormatReport) -> Vec<Entry> {
+        let internal = report.internal.borrow();
+        let mut v = vec![];
+        for (file, errs) in internal.0.iter() {
+            for e in errs {
+                let (line, kind, is_comment, is_string) =
+                    crate::formatting::verif_local::error_fields(e);
+                v.push(Entry {
+                    file: file.to_string(),
+                    line,
+                    kind: kind_name(kind),
+                    overflow: match kind {
+                        ErrorKind::LineOverflow(f, m) => Some((*f, *m)),
+                        _ => None,
+                    },
+                    is_comment,
+                    is_string,
+                });
+            }
+        }
+        v.sort_by(|a, b| (&a.file, a.line, a.kind).cmp(&(&b.file, b.line, b.kind)));
+        v
+    }
+
+    pub fn non_formatted_ranges(report: &FormatReport) -> Vec<(usize, usize)> {
+        report.non_formatted_ranges.clone()
+    }
+
+    /// The seven flags of `ReportedErrors`, in declaration order: operational, parsing,
+    /// formatting, macro_format_failure, check, diff, unformatted_code.
+    pub fn report_flags(report: &FormatReport) -> [bool; 7] {
+        let i = report.internal.borrow();
+        let e = &i.1;
+        [
+            e.has_operational_errors,
+            e.has_parsing_errors,
+            e.has_formatting_errors,
+            e.has_macro_format_failure,
+            e.has_check_errors,
+            e.has_diff,
+            e.has_unformatted_code_errors,
+        ]
+    }
+
+    pub fn session_flags<T: std::io::Write>(s: &Session<'_, T>) -> [bool; 7] {
+        let e = &s.errors;
+        [
+            e.has_operational_errors,
+            e.has_parsing_errors,
+            e.has_formatting_errors,
+            e.has_macro_format_failure,
+            e.has_check_errors,
+            e.has_diff,
+            e.has_unformatted_code_errors,
+        ]
+    }
+
+    /// `formatting::format_lines` on an arbitrary text: the truncated text, the diagnostics and
+    /// the flags that `track_errors` derives from them.
+    pub fn format_lines(
+        text: &str,
+        skipped_range: &[(usize, usize)],
+        config: &Config,
+    ) -> (String, Vec<Entry>, [bool; 7]) {
+        let (t, report) = crate::formatting::verif_local::run_format_lines(
+            text,
+            &FileName::Stdin,
+            skipped_range,
+            config,
+        );
+        (t, entries(&report), report_flags(&report))
+    }
+}
